@@ -548,6 +548,94 @@ func TestVerif_C09_Handlers(t *testing.T) {
 			ep.Close()
 		}
 	}
+	// ---- the same, with the new layout REGENERATED IN PLACE: same paths, same root CID, same index file names (only
+	// the CAR header is encoded one byte longer, so every offset moves); the watcher sees a touched config file
+	if vkit.Mine(int64(len(scs)) + 3) {
+		shp := cargen.SimpleShape(2, 3, 2, 1)
+		dirp := filepath.Join(base, "inplace")
+		ea, err := vkBuildEpoch(dirp, shp, false)
+		if err != nil {
+			R.Internal("build in-place epoch: %v", err)
+			return
+		}
+		cfgp := ea.writeConfig(vkConfigOpts{NoGsfa: true})
+		var bodies []string
+		for _, b := range ea.Truth.Blocks {
+			bodies = append(bodies, fmt.Sprintf(`{"jsonrpc":"2.0","id":1,"method":"getBlock","params":[%d,{"encoding":"base64"}]}`, b.Slot))
+		}
+		for _, tx := range ea.Truth.Txs {
+			bodies = append(bodies, fmt.Sprintf(`{"jsonrpc":"2.0","id":1,"method":"getTransaction","params":[%q,{"encoding":"base64"}]}`, tx.Sig.String()))
+		}
+		answers := func(m *MultiEpoch) []string {
+			h := newMultiEpochHandler(m, nil)
+			var out []string
+			for _, b := range bodies {
+				_, resp, pan := vkRPC(h, b)
+				if pan != nil {
+					out = append(out, fmt.Sprintf("panic: %v", pan))
+				} else {
+					out = append(out, string(resp))
+				}
+			}
+			return out
+		}
+		runCache := vkNewCache()
+		r1, err1 := vkLoadEpoch(e1.ConfigPath, runCache)
+		r2, err2 := vkLoadEpoch(cfgp, runCache)
+		if err1 != nil || err2 != nil {
+			R.Internal("load: %v %v", err1, err2)
+			return
+		}
+		m := vkNewMulti(2, r1, r2)
+		answers(m) // warm the shared cache through the first layout
+		shp.HeaderWide = "header-wide-int"
+		// (the old files are unlinked first: the running epoch keeps its open files, as with any tool that
+		// writes a new file and renames it over the old one)
+		os.Remove(ea.CarPath)
+		os.RemoveAll(filepath.Join(dirp, "indexes"))
+		eb, err := vkBuildEpoch(dirp, shp, false) // the same paths again
+		if err != nil || !eb.Truth.Root.Equals(ea.Truth.Root) || eb.Paths.CidToOffsetAndSize != ea.Paths.CidToOffsetAndSize {
+			R.Internal("regenerate in place: %v (root %s -> %s)", err, ea.Truth.Root, eb.Truth.Root)
+			return
+		}
+		r2b, err := vkLoadEpoch(cfgp, runCache)
+		if err != nil {
+			R.Internal("load the regenerated epoch: %v", err)
+			return
+		}
+		if err := m.ReplaceOrAddEpoch(2, r2b); err != nil {
+			R.Internal("ReplaceOrAddEpoch: %v", err)
+			return
+		}
+		got := answers(m)
+		idleCache := vkNewCache()
+		i1, err1 := vkLoadEpoch(e1.ConfigPath, idleCache)
+		i2, err2 := vkLoadEpoch(cfgp, idleCache)
+		if err1 != nil || err2 != nil {
+			R.Internal("load: %v %v", err1, err2)
+			return
+		}
+		want := answers(vkNewMulti(2, i1, i2))
+		R.Case(true, "")
+		wrong, firstWrong := 0, ""
+		for i := range want {
+			if got[i] != want[i] {
+				wrong++
+				if firstWrong == "" {
+					firstWrong = fmt.Sprintf("%s answered %.200s (idle server: %.120s)", bodies[i], got[i], want[i])
+				}
+			}
+		}
+		R.Outcome(fmt.Sprintf("reload:regenerated-in-place:wrong=%d", wrong))
+		if wrong > 0 {
+			R.Violation("C09|reload|stale-after-regeneration-in-place", fmt.Sprintf("epoch 2 regenerated in place (same paths, same root CID, every offset moved by one byte) and reloaded with ReplaceOrAddEpoch after it had served requests: %d of %d requests addressed to it are then answered differently from an idle server; first: %s", wrong, len(want), firstWrong),
+				map[string]interface{}{"family": "reload-history", "how": "regenerated-in-place"})
+		}
+		vkDrain(0)
+		for _, ep := range []*Epoch{i1, i2, r1, r2, r2b} {
+			ep.Close()
+		}
+	}
 	// ---- sequential histories: an epoch is reloaded from a CAR with another layout (same blocks and CIDs, a longer
 	// header, hence other offsets) while the server keeps running; once the reload has completed, requests addressed
 	// to it must be answered as an idle server started with the new configuration answers them ----
